@@ -262,7 +262,8 @@ def run(ctx):
             files = [c.arg for c in cs]
             files.insert(rng.randint(0, len(files)), path)
             env = core.base_env(tmpdir=dd, extra={"ASAN_OPTIONS": "halt_on_error=1:abort_on_error=0:exitcode=97:detect_leaks=0:log_path=%s/asan" % dd})
-            jobs.append((asan, ["--color", "never", "-t=+00:00"] + files, env, 120))
+            # a third of the runs with --summary: its bookkeeping after the printing loop handles every source that failed
+            jobs.append((asan, ["--color", "never", "-t=+00:00"] + (["--summary"] if rng.random() < 0.33 else []) + files, env, 120))
             meta.append((kind, fclass, cs, files, dd, path))
     results = core.pmap(run_one, jobs)
     asan_sigs = {}
